@@ -115,6 +115,7 @@ pub fn gen_history(seed: u64, max_ops: usize, allow_abandon: bool, extra: bool) 
     let w_emb = if r.chance(1, 2) { r.below(8) as u32 } else { 0 };
     let w_check = 1;
     let w_vac = if extra && r.chance(1, 3) { 1 } else { 0 };
+    let w_doc = if extra && r.chance(1, 3) { 1 } else { 0 };
     let dim = r.range(1, 16) as usize;
     let use_uri = r.chance(1, 2);
     for _ in 0..n_ops {
@@ -124,7 +125,7 @@ pub fn gen_history(seed: u64, max_ops: usize, allow_abandon: bool, extra: bool) 
             st.flush();
             continue;
         }
-        let c = r.weighted(&[w_put, w_upd, w_del, w_commit, w_reopen, w_abandon, w_emb, w_check, w_vac]);
+        let c = r.weighted(&[w_put, w_upd, w_del, w_commit, w_reopen, w_abandon, w_emb, w_check, w_vac, w_doc]);
         match c {
             0 | 6 => {
                 let pay = gen_pay(&mut r, &mix, &st);
@@ -215,6 +216,13 @@ pub fn gen_history(seed: u64, max_ops: usize, allow_abandon: bool, extra: bool) 
                 ops.push(Op::Vacuum);
                 st.flush();
             }
+            9 => {
+                ops.push(Op::Close);
+                st.flush();
+                ops.push(Op::Doctor(DoctorSpec { time: r.chance(1, 2), lex: r.chance(1, 2), vec: r.chance(1, 2), vacuum: r.chance(1, 3), dry_run: false }));
+                ops.push(Op::Open);
+                ops.push(Op::Check);
+            }
             _ => {}
         }
     }
@@ -231,5 +239,182 @@ pub fn gen_history(seed: u64, max_ops: usize, allow_abandon: bool, extra: bool) 
     ops.push(Op::OpenRo);
     ops.push(Op::Check);
     ops.push(Op::Close);
+    Scenario { seed, env, ops, fault: Default::default(), fault_ops: vec![], post: None, knobs: Default::default() }
+}
+
+// ---------------------------------------------------------------------------------------------
+// Corpus + query-battery generator (C08–C16, C28)
+
+pub const PLANT: &[&str] = &["xovrilk", "plimdor", "grazzup", "vontrek", "shulbim", "kwistom"];
+
+pub struct CorpusCfg {
+    pub max_docs: usize,
+    pub with_vec: bool,
+    pub with_images: bool,
+    pub mutate: bool,
+}
+
+fn battery(r: &mut Rng, n: usize, ts_pool: &[i64], n_docs: usize) -> Vec<Op> {
+    let mut ops = Vec::new();
+    for _ in 0..n {
+        let w1 = r.pick(PLANT).to_string();
+        let w2 = r.pick(PLANT).to_string();
+        let w3 = r.pick(VOCAB).to_string();
+        let query = match r.below(12) {
+            0..=3 => w1.clone(),
+            4 => format!("({w1} AND {w2})"),
+            5 => format!("({w1} OR {w2})"),
+            6 => format!("({w1} AND NOT {w2})"),
+            7 => format!("({w1} AND tag:red)"),
+            8 => format!("({w1} AND track:alpha)"),
+            9 => format!("(({w1} OR {w2}) AND NOT {w3})"),
+            10 => format!("\"{w1} {w2}\""),
+            _ => w3.clone(),
+        };
+        let mut s = SearchSpec { query, top_k: *r.pickv(&[1usize, 2, 3, 5, 10, 20, 50]), snippet_chars: r.range(20, 400) as usize, uri: None, scope: None, as_of_frame: None, as_of_ts: None, no_sketch: r.chance(1, 2) };
+        match r.below(10) {
+            0 => s.scope = Some("mv2://a/".to_string()),
+            1 => s.uri = Some(format!("mv2://b/{}", r.below(n_docs.max(1) as u64))),
+            2 => s.as_of_frame = Some(r.below((n_docs * 2).max(1) as u64)),
+            3 => s.as_of_ts = Some(*r.pickv(ts_pool) + r.range(0, 2) as i64 - 1),
+            _ => {}
+        }
+        ops.push(Op::Search(s));
+    }
+    // timelines
+    for _ in 0..(n / 4).max(1) {
+        let lim = if r.chance(1, 2) { Some(r.range(1, (n_docs as u64).max(2))) } else { None };
+        let since = if r.chance(1, 3) { Some(*r.pickv(ts_pool)) } else { None };
+        let until = if r.chance(1, 3) { Some(*r.pickv(ts_pool)) } else { None };
+        ops.push(Op::Timeline(TimelineSpec { limit: lim, since, until, reverse: r.chance(1, 2) }));
+    }
+    ops
+}
+
+pub fn gen_corpus(seed: u64, cfg: &CorpusCfg) -> Scenario {
+    let mut r = Rng::new(seed, "corpus");
+    let env = env_for(seed, &mut r);
+    let mut ops = vec![Op::Create];
+    let n_docs = 1 + r.below(cfg.max_docs as u64) as usize;
+    let ts_pool: Vec<i64> = (0..(2 + r.below(6))).map(|_| r.range(0, 4_000_000) as i64 - 2_000_000).chain([0i64, -1, i64::from(i32::MAX)]).collect();
+    let dim = r.range(1, 24) as usize;
+    let instant_pm = *r.pickv(&[0u64, 0, 300, 1000]);
+    let commit_every = r.range(1, 12);
+    let mut n_frames_est = 0u64;
+    let mut committed_docs: Vec<String> = Vec::new(); // uris of committed, active, non-chunked documents
+    let mut pending_docs: Vec<String> = Vec::new();
+    let vec_on = cfg.with_vec && r.chance(3, 4);
+    let mut qvecs: Vec<Vec<f32>> = Vec::new();
+    for d in 0..n_docs {
+        let long = r.chance(1, 6);
+        let len = if long { r.range(2400, 6000) } else { r.range(30, 1500) } as usize;
+        let mut pay = Pay::new(if long { PK::LongText } else { PK::Text }, len, r.next());
+        // plant: each planted word lands in a random subset of documents, once
+        for p in PLANT {
+            if r.chance(1, 4) {
+                pay.plant.push(p.to_string());
+            }
+        }
+        if r.chance(1, 10) && pay.plant.len() >= 2 {
+            // an adjacent pair for phrase queries
+            let a = pay.plant[0].clone();
+            let b = pay.plant[1].clone();
+            pay.plant = vec![format!("{a} {b}")];
+        }
+        let mut spec = PutSpec { pay: Some(pay), ts: Some(*r.pickv(&ts_pool)), ..Default::default() };
+        spec.uri = Some(format!("mv2://{}/{d}", if r.chance(1, 2) { "a" } else { "b" }));
+        if r.chance(1, 3) {
+            spec.tags = vec![r.pick(&["red", "blue"]).to_string()];
+        }
+        if r.chance(1, 3) {
+            spec.track = Some(r.pick(&["alpha", "beta"]).to_string());
+        }
+        if r.below(1000) < instant_pm {
+            spec.instant_index = true;
+        }
+        if vec_on && !long && r.chance(2, 3) {
+            let e: Vec<f32> = match r.below(8) {
+                0 => vec![0.0; dim],
+                1 => (0..dim).map(|_| 1.0e6 * (r.f32() - 0.5)).collect(),
+                2 => (0..dim).map(|_| 1.0e-30 * r.f32()).collect(),
+                3 if !qvecs.is_empty() => qvecs[r.below(qvecs.len() as u64) as usize].clone(), // duplicate
+                _ => (0..dim).map(|_| r.f32() * 2.0 - 1.0).collect(),
+            };
+            qvecs.push(e.clone());
+            spec.emb = Some(e);
+        }
+        let chunks_est = if long { (len as u64 / 1100).max(2) } else { 0 };
+        if !long {
+            pending_docs.push(spec.uri.clone().unwrap());
+        }
+        n_frames_est += 1 + chunks_est;
+        ops.push(Op::Put(spec));
+        if cfg.with_images && r.chance(1, 8) && !committed_docs.is_empty() {
+            // an extracted image attached to a committed document, with its own timestamp
+            let parent = r.pickv(&committed_docs).clone();
+            let mut img = PutSpec { pay: Some(Pay::new(PK::Bin, r.range(20, 400) as usize, r.next())), ts: Some(*r.pickv(&ts_pool)), role: 2, parent_uri: Some(parent), ..Default::default() };
+            img.uri = Some(format!("mv2://img/{d}"));
+            img.mime = Some("image/png".into());
+            n_frames_est += 1;
+            ops.push(Op::Put(img));
+        }
+        if r.chance(1, 5) {
+            // search while records are still pending (instant index)
+            ops.extend(battery(&mut r, 2, &ts_pool, n_docs));
+        }
+        if (d as u64 + 1) % commit_every == 0 {
+            ops.push(Op::Commit);
+            committed_docs.append(&mut pending_docs);
+            if cfg.mutate && r.chance(1, 3) && !committed_docs.is_empty() {
+                let t = committed_docs.swap_remove(r.below(committed_docs.len() as u64) as usize);
+                if r.chance(1, 2) {
+                    ops.push(Op::DeleteUri { uri: t });
+                } else {
+                    let mut us = PutSpec::default();
+                    if r.chance(1, 2) {
+                        let mut p = Pay::new(PK::Text, r.range(30, 900) as usize, r.next());
+                        if r.chance(1, 2) {
+                            p.plant.push(r.pick(PLANT).to_string());
+                        }
+                        us.pay = Some(p);
+                    }
+                    if vec_on && r.chance(1, 3) {
+                        us.emb = Some((0..dim).map(|_| r.f32() * 2.0 - 1.0).collect());
+                    }
+                    if r.chance(1, 2) {
+                        committed_docs.push(t.clone());
+                    }
+                    ops.push(Op::UpdateUri { uri: t, spec: us });
+                    n_frames_est += 1;
+                }
+            }
+        }
+    }
+    ops.push(Op::Commit);
+    let nb = 6 + r.below(10) as usize;
+    let mut bat = battery(&mut r, nb, &ts_pool, n_docs);
+    if vec_on && !qvecs.is_empty() {
+        for _ in 0..4 {
+            let q: Vec<f32> = if r.chance(1, 3) { qvecs[r.below(qvecs.len() as u64) as usize].clone() } else { (0..dim).map(|_| r.f32() * 2.0 - 1.0).collect() };
+            bat.push(Op::SearchVec { q, k: *r.pickv(&[1usize, 2, 5, 10, 1000]) });
+        }
+        bat.push(Op::SearchVec { q: vec![0.5; dim + 1], k: 3 });
+    }
+    ops.extend(bat.iter().cloned());
+    ops.push(Op::Check);
+    ops.push(Op::Close);
+    ops.push(Op::Open);
+    ops.extend(bat.iter().cloned());
+    ops.push(Op::Close);
+    ops.push(Op::OpenRo);
+    ops.extend(bat.iter().cloned());
+    ops.push(Op::Close);
+    if r.chance(1, 3) {
+        ops.push(Op::Doctor(DoctorSpec { time: r.chance(1, 2), lex: r.chance(1, 2), vec: r.chance(1, 2), vacuum: false, dry_run: false }));
+        ops.push(Op::Open);
+        ops.extend(bat.iter().cloned());
+        ops.push(Op::Check);
+        ops.push(Op::Close);
+    }
     Scenario { seed, env, ops, fault: Default::default(), fault_ops: vec![], post: None, knobs: Default::default() }
 }
